@@ -316,6 +316,24 @@ a = kappa * inner(grad(u), grad(v)) * dx + f * inner(u, v) * ds
 L = inner(f, v) * dx
 '''
 
+UFL_DERIV = '''
+import basix.ufl
+from ufl import (Coefficient, Constant, FunctionSpace, Mesh, TestFunction, TrialFunction, derivative, ds, dx, grad, inner)
+element = basix.ufl.element("Lagrange", "triangle", 1)
+domain = Mesh(basix.ufl.element("Lagrange", "triangle", 1, shape=(2,)))
+space = FunctionSpace(domain, element)
+v = TestFunction(space)
+du = TrialFunction(space)
+source = Coefficient(space)
+unknown = Coefficient(space)
+kappa = Coefficient(space)
+alpha = Constant(domain)
+beta = Constant(domain)
+F = source * v * dx + (1 + unknown**2) * kappa * inner(grad(unknown), grad(v)) * dx + alpha * beta * unknown * v * ds
+J = derivative(F, unknown, du)
+forms = [F, J]
+'''
+
 UFL_EXPR = '''
 import basix.ufl
 import numpy as np
@@ -456,6 +474,20 @@ def _compare_kernels(chk, label, stem, prefix, ufd, jitres, so_path, st, rng, pa
                 if getattr(sf, fld) != getattr(jf, fld):
                     chk.violation(key=f"cli:descriptor-differs:{label}", what=f"form descriptor field {fld} differs between ffcx CLI output and JIT",
                                   payload=dict(payload, alias=n))
+            # names: entry k of the name maps must name the coefficient/constant that position k of w / c holds
+            uform = ufd.forms[fal.index(n)]
+            ocoefs = list(uform.coefficients())
+            want_c = [names.get(id(ocoefs[sf.original_coefficient_positions[k]]), None) for k in range(sf.num_coefficients)]
+            got_c = [ffi.string(sf.coefficient_name_map[k]).decode() for k in range(sf.num_coefficients)]
+            want_k = [names.get(id(cc), None) for cc in uform.constants()]
+            got_k = [ffi.string(sf.constant_name_map[k]).decode() for k in range(sf.num_constants)]
+            chk.case("name-maps", key=f"{label}:{n}:{got_c}:{got_k}")
+            if any(w is not None and w != g for w, g in zip(want_c, got_c)) or len(want_c) != len(got_c):
+                chk.violation(key=f"cli:coefficient-name-map:{label}", what=f"coefficient_name_map {got_c} does not name the coefficients at original_coefficient_positions ({want_c})",
+                              payload=dict(payload, alias=n, got=got_c, expected=want_c))
+            if any(w is not None and w != g for w, g in zip(want_k, got_k)) or len(want_k) != len(got_k):
+                chk.violation(key=f"cli:constant-name-map:{label}", what=f"constant_name_map {got_k} does not name the form's constants ({want_k})",
+                              payload=dict(payload, alias=n, got=got_k, expected=want_k))
             nint = jf.form_integral_offsets[5] if hasattr(jf, "form_integral_offsets") else 0
             tot = sf.form_integral_offsets[5]
             if tot != nint:
@@ -500,6 +532,7 @@ def search_files(chk, rng, thorough):
         ("poisson", "poisson.ufl", UFL_POISSON.format(deg=1), [], {}),
         ("expr", "my-expr.v2.ufl", UFL_EXPR, ["--scalar_type", "float32"], {"scalar_type": "float32"}),
         ("mixed", "sub dir/Mixed_3D.ufl", UFL_MIXED, [], {}),
+        ("deriv", "nonlinear.ufl", UFL_DERIV, [], {}),   # the Jacobian drops the first coefficient (`source`)
     ]
     if thorough:
         cases += [
